@@ -18,8 +18,14 @@
 #include <memory>
 #include <set>
 #include <thread>
-#include "rkcommon/utility/Observer.h"
+#include <vector>
+#include "rkcommon/common.h"
+// harness-only access to the private static counter TimeStamp::global, so that `tjump <n>` can put 2^31 / 2^32 / 2^40
+// draws between two stamps without making them one by one (the class layout is unchanged by the access specifier)
+#define private public
 #include "rkcommon/utility/TimeStamp.h"
+#undef private
+#include "rkcommon/utility/Observer.h"
 
 using namespace rkcommon::utility;
 
@@ -289,6 +295,10 @@ static std::string stepOp(const std::vector<std::string> &w)
           int k = slot(w.at(1), NT);
           if (!T[k]) return "skip";
           return canon(*T[k]);
+        }
+        if (op == "tjump") {
+          TimeStamp::global.fetch_add((size_t)std::stoull(w.at(1)));
+          return "ok";
         }
         if (op == "mt")
           return mt(std::stoi(w.at(1)), std::stoi(w.at(2)));
